@@ -3,9 +3,10 @@ service) and the arithmetic / route-builder part (route: Timelock.tla against th
 import time
 
 import vp
-from engines import peersync, record, route, swapfsm, tx
+from engines import duo, peersync, record, route, swapfsm, tx
 
 PARTS = {"C04": "C04R", "C05": "C05R"}
+DUO = ("C06", "C07", "C16")   # FSM part (one real node against a simulated, possibly dishonest peer) + two real nodes against each other
 
 
 def run_tx(prop, txprop, tier, mod=tx):
@@ -53,14 +54,14 @@ def run(prop, tier):
         if x["sig"].startswith(prop + "|"):
             rp = vp.save_replay(prop, "sched-%s.json" % vp.sig_id(x["sig"]), dict(signature=x["sig"], schedule=x["schedule"]))
             ver.add(x["sig"], rp)
-    p = route.part(PARTS[prop], tier)
+    p = duo.part(prop, tier) if prop in DUO else route.part(PARTS[prop], tier)
     for sig, rp in p["violations_new"].items():
         ver.new.setdefault(sig, rp)
     for sig, txt in p["known"].items():
         ver.known.setdefault(sig, txt)
     rc = ver.report()
     cov = dict(p["coverage"])
-    cov["route_part"] = {k: v for k, v in p["coverage"].items() if k not in ("samples",)}
+    cov["duo_part" if prop in DUO else "route_part"] = {k: v for k, v in p["coverage"].items() if k not in ("samples",)}
     cov["states"] = int(p["coverage"].get("states", 0)) + r["states"]
     cov["transitions"] = int(p["coverage"].get("transitions", 0)) + r["transitions"]
     cov["traces_validated_against_impl"] = int(p["coverage"].get("traces_validated_against_impl", 0)) + r["nschedules"]
